@@ -167,6 +167,9 @@ def run(tier: str, seed: int) -> int:
         c["_cfg"] = cfgpath
     obs = drive("harness.props.c05", "drive_case", cases)
     verdicts = chk.judge("Judge_C05", obs)
+    from .. import corrupt as _corrupt
+
+    chk.binding_selftest("Judge_C05", obs, verdicts, _corrupt.c05)
 
     def pretty(o):
         if o["kind"] == "field":
